@@ -1,7 +1,7 @@
 (* Extraction of the executable model for the correspondence check.
    ExtrOcamlBasic only: N, Z, positive, nat stay the extracted inductives. *)
 From Coq Require Import Extraction ExtrOcamlBasic.
-From RL Require Import UData Uax29 Utf8 History HistFile Direct Completion LineBufferOps EditorRun SqlHist.
+From RL Require Import UData Uax29 Utf8 History HistFile Direct Completion LineBufferOps EditorRun SqlHist RawMode RawSteps.
 
 Extraction Blacklist List String Int.
 
@@ -20,5 +20,7 @@ Extraction "model.ml"
   lb_run lb_apply mkLb move_to_line_up move_to_line_down
   (* sqlite history *)
   sql_new sql_run
+  (* raw mode around a read *)
+  read_steps switches mkTerm
   (* editor *)
   run_reads mk_config kr_new mkIn mkMods.
